@@ -869,8 +869,8 @@ _reduce("sum_dim", "aten_sum_dim_IntList", ["aten::sum.dim_IntList"],
         lambda t, x, d, k: t.sum(x, dim=d, keepdim=k), ("f32", "i64", "f16"), has_none=True)
 _reduce("mean_dim", "aten_mean_dim", ["aten::mean.dim"],
         lambda t, x, d, k: t.mean(x, dim=d, keepdim=k), ("f32",))
-_reduce("amax", "aten_amax", ["aten::amax"], lambda t, x, d, k: t.amax(x, dim=d, keepdim=k), ("f32", "i64", "i32"))
-_reduce("amin", "aten_amin", ["aten::amin"], lambda t, x, d, k: t.amin(x, dim=d, keepdim=k), ("f32", "i64", "i32"))
+_reduce("amax", "aten_amax", ["aten::amax"], lambda t, x, d, k: t.amax(x, dim=(() if d is None else d), keepdim=k), ("f32", "i64", "i32"), has_none=True)
+_reduce("amin", "aten_amin", ["aten::amin"], lambda t, x, d, k: t.amin(x, dim=(() if d is None else d), keepdim=k), ("f32", "i64", "i32"), has_none=True)
 _reduce("all_dims", "aten_all_dims", ["aten::all.dims"], lambda t, x, d, k: t.ops.aten.all.dims(x, d, k), ("f32", "i64", "bool"), has_none=True)
 _reduce("any_dims", "aten_any_dims", ["aten::any.dims"], lambda t, x, d, k: t.ops.aten.any.dims(x, d, k), ("f32", "i64", "bool"), has_none=True)
 
@@ -1258,6 +1258,8 @@ _modepad("replication_pad2d", "aten_replication_pad2d", "replicate", 2)
 class _Unfold:
     @staticmethod
     def gen(rng):
+        if rng.random() < 0.06:
+            return dict(shape=[], dtype="f32", dim=rng.choice([0, -1]), size=rng.choice([0, 1, 1]), step=1)
         s = rshape(rng, 1, 3, zero_p=0.0)
         r = len(s)
         d = rdim(rng, r, 0.03)
@@ -1667,7 +1669,7 @@ BRANCHES = {
     "atleast_2d": [lambda c: "reshape" if len(c["shape"]) <= 1 else "identity"],
     "atleast_3d": [lambda c: "reshape" if len(c["shape"]) <= 1 else "unsqueeze" if len(c["shape"]) == 2 else "identity"],
     "repeat_interleave": [lambda c: "no-dim" if c["dim"] is None else "dim"],
-    "unfold": [lambda c: "window"],
+    "unfold": [lambda c: "rank0" if not c["shape"] else "window"],
     "expand": [lambda c: ("keep(-1)" if -1 in c["size"] else "explicit") + (":new-leading" if len(c["size"]) > len(c["shape"]) else "")],
     "cumsum": [lambda c: "rank0" if not c["shape"] else "cumsum"],
     "sum": [lambda c: "rank0" if not c["shape"] else "reduce"],
@@ -1692,5 +1694,225 @@ REQUIRED = [
     "atleast_1d:reshape", "atleast_2d:reshape", "atleast_3d:reshape", "atleast_3d:unsqueeze", "atleast_3d:identity",
     "repeat_interleave:no-dim", "repeat_interleave:dim", "expand:keep(-1)", "expand:explicit:new-leading",
     "cumsum:rank0", "sum:rank0", "all:rank0", "any:rank0", "convolution:transposed", "convolution:conv",
-    "slice:start:None,end:None,step:None",
+    "slice:start:None,end:None,step:None", "unfold:rank0", "unfold:window",
 ]
+
+
+# ---- scalar promotion bookkeeping and creation (trace-time operator choice; values by onnxruntime vs torch) -----
+
+_DC = {"f32": "f32", "i64": "i64", "bool": "bool"}
+
+
+def _half(dc, n2):
+    return (n2 / 2.0) if dc == "f32" else (n2 // 2)
+
+
+def _bpair(rng):
+    s = [rng.choice([1, 2, 3]) for _ in range(rng.randint(0, 3))]
+    o = [d if rng.random() < 0.6 else 1 for d in s][rng.randint(0, len(s)):] if s else []
+    return s, o
+
+
+def _addsub(name, fnname, is_add, scalar):
+    class _A:
+        @staticmethod
+        def gen(rng):
+            dc = rng.choice(["f32", "i64"] + (["bool"] if is_add and not scalar else []))
+            s, o = _bpair(rng)
+            if not scalar and rng.random() < 0.3:
+                s, o = o, s          # `other` carries the larger shape
+            if dc == "bool":
+                alpha2 = rng.choice([2, 2, 0])
+            elif dc == "i64":
+                alpha2 = rng.choice([2, 2, 4, 6, -4, 0])
+            else:
+                alpha2 = rng.choice([2, 2, 4, 1, -3, 5])
+            other2 = rng.choice([6, 2, -4, 3]) if dc == "f32" else rng.choice([6, 2, -4])
+            return dict(shape=s, other=([] if scalar else o), dtype=dc, dtype2=dc, alpha2=alpha2, other2=other2)
+
+        @staticmethod
+        def line(c):
+            return (f"addsub {int(is_add)} {c['dtype2']} {'S' if scalar else 'T'} {sh(c['shape'])} {sh(c['other'])} "
+                    f"{c['alpha2']} {c['other2']}")
+
+        @staticmethod
+        def _args(c):
+            x = data(c["shape"], c["dtype"])
+            al = _half(c["dtype2"], c["alpha2"]) if c["dtype2"] != "bool" else bool(c["alpha2"])
+            if scalar:
+                return x, _half(c["dtype2"], c["other2"]), al
+            return x, np.asarray(data(c["other"], c["dtype"]) if c["dtype"] == "bool" else (data(c["other"], c["dtype"]) + 1).astype(NP[c["dtype"]])), al
+
+        @staticmethod
+        def call(c):
+            x, o, al = _A._args(c)
+            return [x, o], {"alpha": al}
+
+        @staticmethod
+        def torch(c, t):
+            x, o, al = _A._args(c)
+            f = t.add if is_add else t.sub
+            return f(t.tensor(x), o if scalar else t.tensor(o), alpha=al)
+
+        @staticmethod
+        def branch(c):
+            return ("bool:" + ("identity" if c["alpha2"] == 0 else "or")) if c["dtype2"] == "bool" else \
+                ("alpha1" if c["alpha2"] == 2 else "alpha-mul")
+    _A.fnname = fnname
+    return fam(name, "scalar", ["aten::" + name.replace("_scalar", ".Scalar") if scalar else "aten::" + name + ".Tensor"])(_A)
+
+
+_addsub("add", "aten_add", True, False)
+_addsub("sub", "aten_sub", False, False)
+_addsub("add_scalar", "aten_add_scalar", True, True)
+_addsub("sub_scalar", "aten_sub_scalar", False, True)
+
+
+@fam("clamp", "scalar", ["aten::clamp"])
+class _Clamp:
+    @staticmethod
+    def gen(rng):
+        dc = rng.choice(["f32", "i64"])
+        s, _ = _bpair(rng)
+        step = 1 if dc == "f32" else 2
+        lo2 = None if rng.random() < 0.35 else rng.choice([-4, -2, 0, 2]) if dc == "i64" else rng.choice([-3, -1, 0, 1])
+        hi2 = None if rng.random() < 0.35 else rng.choice([-2, 0, 2, 6]) if dc == "i64" else rng.choice([-1, 1, 3, 5])
+        return dict(shape=s, dtype=dc, dtype2=dc, lo2=lo2, hi2=hi2)
+
+    @staticmethod
+    def line(c):
+        return f"clamp {c['dtype2']} {sh(c['shape'])} {opt(c['lo2'])} {opt(c['hi2'])}"
+
+    @staticmethod
+    def _b(c):
+        lo = None if c["lo2"] is None else _half(c["dtype2"], c["lo2"])
+        hi = None if c["hi2"] is None else _half(c["dtype2"], c["hi2"])
+        return lo, hi
+
+    @staticmethod
+    def call(c):
+        lo, hi = _Clamp._b(c)
+        return [data(c["shape"], c["dtype"], "signed"), lo, hi], {}
+
+    @staticmethod
+    def torch(c, t):
+        lo, hi = _Clamp._b(c)
+        x = t.tensor(data(c["shape"], c["dtype"], "signed"))
+        return x.clone() if lo is None and hi is None else t.clamp(x, lo, hi)
+
+    @staticmethod
+    def branch(c):
+        return ("lo" if c["lo2"] is not None else "") + ("hi" if c["hi2"] is not None else "") or "none"
+
+
+@fam("clamp_tensor", "scalar", ["aten::clamp.Tensor"])
+class _ClampTensor:
+    @staticmethod
+    def gen(rng):
+        s, o = _bpair(rng)
+        lo = None if rng.random() < 0.35 else o
+        hi = None if rng.random() < 0.35 else (o if rng.random() < 0.5 else [])
+        return dict(shape=s, dtype=rng.choice(["f32", "i64"]), lo=lo, hi=hi)
+
+    @staticmethod
+    def line(c):
+        return f"clamp_tensor {sh(c['shape'])} {'_' if c['lo'] is None else sh(c['lo'])} {'_' if c['hi'] is None else sh(c['hi'])} ."
+
+    @staticmethod
+    def _args(c):
+        x = data(c["shape"], c["dtype"], "signed")
+        lo = None if c["lo"] is None else np.asarray((data(c["lo"], c["dtype"]) - 1).astype(NP[c["dtype"]]))
+        hi = None if c["hi"] is None else np.asarray((data(c["hi"], c["dtype"]) + 1).astype(NP[c["dtype"]]))
+        return x, lo, hi
+
+    @staticmethod
+    def call(c):
+        x, lo, hi = _ClampTensor._args(c)
+        return [x, lo, hi], {}
+
+    @staticmethod
+    def torch(c, t):
+        x, lo, hi = _ClampTensor._args(c)
+        if lo is None and hi is None:
+            return t.tensor(x)
+        return t.clamp(t.tensor(x), None if lo is None else t.tensor(lo), None if hi is None else t.tensor(hi))
+
+    @staticmethod
+    def branch(c):
+        return ("lo" if c["lo"] is not None else "") + ("hi" if c["hi"] is not None else "") or "none"
+
+
+_TDT = {"f32": "float32", "i64": "int64", "bool": "bool"}
+_ODT = {"f32": 1, "i64": 7, "bool": 9}
+
+
+def _create(kind, fnname, overload):
+    class _C:
+        @staticmethod
+        def gen(rng):
+            size = [rng.choice([0, 1, 2, 3]) for _ in range(rng.randint(0, 3))]
+            cdt = rng.choice([None, "f32", "i64"])
+            if kind == "zeros" and cdt is None:
+                cdt = None
+            return dict(shape=size, size=size, dtype=rng.choice(["f32", "i64"]), cdt=cdt)
+
+        @staticmethod
+        def line(c):
+            return f"create {kind} {ints(c['size'])} {'N' if c['cdt'] is None else c['cdt']} ."
+
+        @staticmethod
+        def call(c):
+            kw = {} if c["cdt"] is None else {"dtype": _ODT[c["cdt"]]}
+            x = data(c["size"] if kind.endswith("_like") else [2], c["dtype"])
+            if kind == "full":
+                return [list(c["size"]), 1.5], kw
+            if kind == "zeros":
+                return [list(c["size"])], kw
+            if kind == "new_full":
+                return [x, list(c["size"]), 3], kw
+            if kind == "new_zeros":
+                return [x, list(c["size"])], kw
+            if kind == "full_like":
+                return [x, 7], kw
+            return [x], kw
+
+        @staticmethod
+        def torch(c, t):
+            kw = {} if c["cdt"] is None else {"dtype": getattr(t, _TDT[c["cdt"]])}
+            x = t.tensor(data(c["size"] if kind.endswith("_like") else [2], c["dtype"]))
+            if kind == "full":
+                return t.full(list(c["size"]), 1.5, **kw)
+            if kind == "zeros":
+                return t.zeros(list(c["size"]), **kw)
+            if kind == "new_full":
+                return x.new_full(list(c["size"]), 3, **kw)
+            if kind == "new_zeros":
+                return x.new_zeros(list(c["size"]), **kw)
+            if kind == "full_like":
+                return t.full_like(x, 7, **kw)
+            if kind == "zeros_like":
+                return t.zeros_like(x, **kw)
+            return t.ones_like(x, **kw)
+
+        @staticmethod
+        def branch(c):
+            return "dtype-given" if c["cdt"] is not None else "dtype-default"
+    _C.fnname = fnname
+    return fam("create_" + kind, "creation", [overload])(_C)
+
+
+_create("full", "aten_full", "aten::full")
+_create("zeros", "aten_zeros", "aten::zeros")
+_create("new_full", "aten_new_full", "aten::new_full")
+_create("new_zeros", "aten_new_zeros", "aten::new_zeros")
+_create("full_like", "aten_full_like", "aten::full_like")
+_create("zeros_like", "aten_zeros_like", "aten::zeros_like")
+_create("ones_like", "aten_ones_like", "aten::ones_like")
+
+for _n in ("add", "sub", "add_scalar", "sub_scalar"):
+    BRANCHES[_n] = [FAMILIES[_n]["branch"]]
+for _n in ("clamp", "clamp_tensor"):
+    BRANCHES[_n] = [FAMILIES[_n]["branch"]]
+REQUIRED += ["add:bool:identity", "add:bool:or", "add:alpha1", "add:alpha-mul", "sub:alpha-mul", "add_scalar:alpha-mul",
+             "clamp:none", "clamp:lo", "clamp:hi", "clamp:lohi", "clamp_tensor:none", "clamp_tensor:lo", "clamp_tensor:hi",
+             "clamp_tensor:lohi"]
